@@ -326,7 +326,8 @@ def handleOp (d : DState) (toks : List String) : DState × String :=
       match pos.mapM (·.toNat?), parseOutcomes ((kvOf rest "o").getD "-"), parseCsv ((kvOf rest "bombs").getD "-") with
       | some args, some o, some bombs =>
         let capIn := ((kvOf rest "capin").bind (·.toNat?)).getD 0
-        let env : Env := { bombs := bombs, kind := e.kind, capIn := capIn }
+        -- `maxcap=`: `isize::MAX / size_of::<T>()` (absent: unbounded)
+        let env : Env := { bombs := bombs, kind := e.kind, capIn := capIn, maxCap := (kvOf rest "maxcap").bind (·.toNat?) }
         match (if e.kind == .rev then (match runRevOp env (clearLogs e.vec) name args o rest with | some r => some r | none => some (.error (.assertion "op not available on MutBumpVecRev"), false))
                else runSpecial env (clearLogs e.vec) name args o rest) with
         | some (.error f, _) => (d, showFault f)
@@ -343,7 +344,12 @@ def handleOp (d : DState) (toks : List String) : DState × String :=
         | some (.ok (v, exit, restO)) =>
           let v := normalise e.kind v
           let exit := tryExit env e.kind (clearLogs e.vec) name args rest exit
-          (put d { e with vec := clearLogs v }, report e.kind v exit (o.length - restO.length))
+          -- `dedup_by`: the pairs the callback is handed (ghost trace `dedupCalls`)
+          let calls := if name == "dedup_by" then
+              let cs := dedupCalls env.bombs (clearLogs e.vec) o
+              " args=" ++ (if cs.isEmpty then "-" else ",".intercalate (cs.map fun (a, b) => s!"{a}:{b}"))
+            else ""
+          (put d { e with vec := clearLogs v }, report e.kind v exit (o.length - restO.length) ++ calls)
       | _, _, _ => (d, "bad-op unparsable")
   | _ => (d, "bad-op")
 
